@@ -261,6 +261,14 @@ func TestVFC04Precedence(t *testing.T) {
 			sys.checkFindAddr(t, a)
 		}
 
+		// the same registry loaded as an initial client list, in another order
+		if rapid.Bool().Draw(t, "reload") {
+			sys.reload(t, vfC04Names2(rapid.Permutation(clients).Draw(t, "reload_order")))
+			sys.checkApply(t, reqCID, target, g)
+			sys.checkFindAddr(t, target)
+			vfC04.Class("precedence:reloaded")
+		}
+
 		// coverage
 		vfC04.Eval()
 		vfC04.Class("precedence_case")
